@@ -466,6 +466,10 @@ func c02Gaps(w *mon.W, idx int) {
 
 func c02Zoo(w *mon.W, idx int) {
 	words := gen.ZooBitmap(w.Rng, 1+idx%40)
+	if idx%10 == 7 {
+		words = gen.RunBitmap(w.Rng, 140+idx%280)
+		w.Bucket("bitmap/run-structured")
+	}
 	var pos []int32
 	var cov c02Cov
 	if c02Check(w, words, &pos, &cov) {
